@@ -105,6 +105,9 @@ STRESS = {  # large-magnitude operands at which the function is perfectly well c
 
 
 ZERO_FNS = ("prod", "cumprod", "multiply_sequence", "multiply")
+# value placed at masked-out positions of a where= call: a point where the function or its derivative is not finite
+MASKED_POLES = {"log": 0.0, "log2": 0.0, "log10": 0.0, "sqrt": 0.0, "reciprocal": 0.0, "cbrt": 0.0, "log1p": -1.0, "arccosh": 1.0, "arcsin": 1.0,
+                "arccos": -1.0, "arctanh": 1.0, "divide": 0.0, "power": 0.0}
 
 
 def gen_single(rng, fn, force_empty=False, k=0):
@@ -204,8 +207,24 @@ def _gen_uout(b, rng, fn, shape, lo, hi, signed):
     if rng.random() < 0.8:
         ms = shape if rng.random() < 0.5 else B.bcast_variants(rng, shape)
         kw["where"] = enc_arr(np.array([rng.random() < 0.5 for _ in range(int(np.prod(ms, dtype=int)))], dtype=bool).reshape(ms))
-    if not b.emit({"k": "uout", "fn": fn, "a": args, "kw": kw, "tgt": t0, "sp": rng.choice(["mg", "np"])}):
-        return None
+    if "where" in kw and fn in MASKED_POLES and rng.random() < 0.7:
+        # the reason people mask: operand values OUTSIDE the function's domain (a pole / a non-finite derivative) at masked-out
+        # positions, as in log(x, where=x > 0, out=z). Those elements take no part: their gradient is exactly zero.
+        mask = np.broadcast_to(np.array(kw["where"][3], dtype=bool).reshape(kw["where"][2]), shape)
+        for a in args:
+            if isinstance(a, list) and a[:1] == ["r"]:
+                st = next(q for q in b.prog if q.get("out") == a[1])
+                arr = b.it.env[a[1]]
+                if st["k"] == "leaf" and arr.shape == tuple(shape):
+                    new_vals = np.where(mask, arr, MASKED_POLES[fn]).astype(arr.dtype)
+                    st["data"] = new_vals.ravel().tolist()
+                    st["layout"] = "C"
+                    st.pop("nocopy", None)
+                    b.it.env[a[1]] = new_vals
+                    break
+    with np.errstate(all="ignore"):
+        if not b.emit({"k": "uout", "fn": fn, "a": args, "kw": kw, "tgt": t0, "sp": rng.choice(["mg", "np"])}, check=False):
+            return None
     return t0
 
 
